@@ -218,7 +218,7 @@ func c13Run(raw json.RawMessage) harn.Result {
 		res.Violations = append(res.Violations, harn.Violation{Signature: sig, What: fmt.Sprintf("source %q: %s", c.Src, what)})
 	}
 	vm := drv.NewVM(drv.AllOn())
-	warm := c.Kind != "literal" && len(c.Src)%8 == 3 // one template case in eight on a well-used VM (both VMs of the comparison)
+	warm := c.Kind != "literal" && len(c.Src)%32 == 3 // one template case in 32 on a well-used VM (both VMs of the comparison)
 	if c.Kind != "literal" { // a literal refers to no variable
 		if err := vm.Run(c13Prelude); err != nil {
 			panic(err)
